@@ -160,7 +160,7 @@ class _ReaderConn:
     pass
 
 
-def impl_reader(chunks, timeout=20.0):
+def impl_reader(chunks, timeout=20.0, raising=()):
     """Feeds `chunks` one read at a time to the REAL socket_read_task of a connection object whose
     _process_message records what it is handed.  Returns [residual buffer, [[msg, raw]...], statuses]
     where status per chunk is 0 = waiting, 1 = an exception was logged while processing it."""
@@ -189,6 +189,10 @@ def impl_reader(chunks, timeout=20.0):
         async def _process_message(self, msg, raw):
             self.got.append([canon_message(msg), list(raw) if raw is not None else []])
             self.calls += 1
+            if len(self.got) in raising:
+                # the real dispatcher can raise outside its own try block (_validate_integrity on a repeated CompID tag,
+                # a journal failure in _finalize_message): the reader logs it and must go on with what follows
+                raise RuntimeError("dispatcher failed (harness)")
             if self.calls >= self.limit:
                 # the decode loop returned a message without shortening the buffer more often than
                 # the buffer is long: it would never terminate by itself (model: fuel exhausted, status 2)
